@@ -23,7 +23,11 @@ class _Clock:
 def _fake_datetime_module():
     real = _dt
 
-    class FakeDT(real.datetime):
+    class _Meta(type(real.datetime)):
+        def __instancecheck__(cls, obj):        # a real datetime is as good as one of ours
+            return isinstance(obj, real.datetime)
+
+    class FakeDT(real.datetime, metaclass=_Meta):
         @classmethod
         def utcnow(cls):
             return real.datetime.utcfromtimestamp(_Clock.now)
@@ -77,15 +81,27 @@ def one_history(args):
     seed, idx, o = args
     from . import gem
     rng = random.Random('incr-%d-%d' % (seed, idx))
-    tz = o.get('tz') or rng.choice(['UTC', 'XXX-5', 'XXX5', 'XXX-11', 'XXX9'])
+    # (two zones with daylight-saving rules, a northern and a southern one: whatever the date, one of them
+    # has DST in effect; POSIX rule strings need no tzdata)
+    tz = o.get('tz') or rng.choice(['UTC', 'XXX-5', 'XXX5', 'XXX-11', 'XXX9',
+                                    'NST-1NDT,M3.5.0,M10.5.0/3', 'SST-1SDT,M10.1.0,M3.5.0/3'])
     base = tlc.scratch_dir('vi')
     old_tz = os.environ.get('TZ')
+    # the virtual clock is installed in EVERY gemato module that refers to `datetime` (wherever the
+    # implementation asks for the time, it asks this clock)
+    import sys as _sys
+    dt_users = [m for n, m in list(_sys.modules.items())
+                if (n == 'gemato' or n.startswith('gemato.')) and m is not None
+                and getattr(m, 'datetime', None) is _dt]
     old_dtmod = gem.gemato.cli.datetime
     old_uefp = gem.gemato.recursiveloader.update_entry_for_path
     recs = []
     try:
         set_tz(tz)
-        gem.gemato.cli.datetime = _fake_datetime_module()
+        fake = _fake_datetime_module()
+        for m in dt_users:
+            m.datetime = fake
+        gem.gemato.cli.datetime = fake
         A, B = os.path.join(base, 'inc'), os.path.join(base, 'full')
         os.mkdir(A)
         names = ['f%d' % k for k in range(rng.randrange(2, 6))] + ['sub/g1', 'sub/g2']
@@ -224,6 +240,13 @@ def one_history(args):
                             'added': bool(exists and rec_sz is None), 'deleted': bool(not exists and rec_sz is not None),
                             'stale_before': bool(n in stale_before and n not in pending_mid_prev),
                             'same': True, 'true': True}
+            mk, md = ops.get('sub/Manifest', (None, None))
+            if mk == 'revert' and flist.get('sub/Manifest', {}).get('dmt', 1) <= 0:
+                # the sub-Manifest was edited WITHOUT getting a newer mtime: outside the property's precondition,
+                # and what it says about the files of sub/ is excused with it
+                for n in names:
+                    if n.startswith('sub/') and n != 'sub/Manifest' and n in flist:
+                        flist[n]['stale_before'] = True
             pending_mid = []
             if rng.random() < 0.3:
                 # a partial update (of sub/ only) on both replicas first: it must leave the TIMESTAMP alone,
@@ -321,6 +344,8 @@ def one_history(args):
         return recs
     finally:
         gem.gemato.cli.datetime = old_dtmod
+        for m in dt_users:
+            m.datetime = _dt
         gem.gemato.recursiveloader.update_entry_for_path = old_uefp
         if old_tz is None:
             os.environ.pop('TZ', None)
